@@ -281,7 +281,7 @@ func newValue(input []byte) (o nvOut) {
 			o = nvOut{class: ocPanic}
 		}
 	}()
-	r := bytes.NewReader(input)
+	r := mkReader(input)
 	v, err := value.NewValue(r)
 	if err != nil {
 		return nvOut{class: ocErr, left: r.Len()}
